@@ -521,7 +521,10 @@ func (x *c03) dischargeSlice(f *ssa.Function, v *ssa.Slice) (string, string) {
 				}
 			}
 		}
-		// [0:l] of a writer buffer allocated with at least l
+		// [:l] of a writer buffer allocated with at least l
+		if why := x.gbuf(v); why != "" {
+			return why, ""
+		}
 		return "", "x[:h] without a dominating len(x) ≥ h guard on the same value (or h not provably non-negative)"
 	}
 	if v.Low != nil && v.High == nil {
@@ -545,19 +548,76 @@ func (x *c03) dischargeSlice(f *ssa.Function, v *ssa.Slice) (string, string) {
 			if call, ok := ex.Tuple.(*ssa.Call); ok && call.Call.IsInvoke() && (call.Call.Method.Name() == "Write" || call.Call.Method.Name() == "WriteStream") && len(call.Call.Args) >= 1 && call.Call.Args[0] == v.X {
 				return "Gwrite: b[wn:] with wn the count Write(b) returned (0 ≤ wn ≤ len(b) by the io.Writer contract)", ""
 			}
+			// the write handed in as a func([]byte) (int, error) parameter: same contract
+			if call, ok := ex.Tuple.(*ssa.Call); ok && !call.Call.IsInvoke() && len(call.Call.Args) == 1 && call.Call.Args[0] == v.X {
+				if p, isP := call.Call.Value.(*ssa.Parameter); isP {
+					if sig, okS := p.Type().Underlying().(*types.Signature); okS && sig.Params().Len() == 1 && sig.Results().Len() == 2 && isByteSlice(sig.Params().At(0).Type()) && isErrorType(sig.Results().At(1).Type()) {
+						return "Gwrite: b[wn:] with wn the count the write function handed in returned for b (0 ≤ wn ≤ len(b), io.Writer contract of the wrapped Write)", ""
+					}
+				}
+			}
+		}
+		// Gwrite (offset form): b[sent:] with sent = 0 + the counts returned by Write(b[sent:])
+		if ph, ok := v.Low.(*ssa.Phi); ok {
+			good := true
+			var chk func(e ssa.Value, d int)
+			chk = func(e ssa.Value, d int) {
+				if e == ssa.Value(ph) || isZeroConst(e) {
+					return
+				}
+				if mp, isPhi := e.(*ssa.Phi); isPhi && d < 3 {
+					for _, ee := range mp.Edges {
+						chk(ee, d+1)
+					}
+					return
+				}
+				bo, isB := e.(*ssa.BinOp)
+				if !isB || bo.Op != token.ADD {
+					good = false
+					return
+				}
+				cnt := bo.Y
+				if bo.Y == ssa.Value(ph) {
+					cnt = bo.X
+				} else if bo.X != ssa.Value(ph) {
+					good = false
+					return
+				}
+				ex, isEx := cnt.(*ssa.Extract)
+				if !isEx || ex.Index != 0 {
+					good = false
+					return
+				}
+				call, isCall := ex.Tuple.(*ssa.Call)
+				if !isCall || len(call.Call.Args) < 1 {
+					good = false
+					return
+				}
+				isW := call.Call.IsInvoke() && (call.Call.Method.Name() == "Write" || call.Call.Method.Name() == "WriteStream")
+				if p, isP := call.Call.Value.(*ssa.Parameter); isP && !call.Call.IsInvoke() {
+					if sig, okS := p.Type().Underlying().(*types.Signature); okS && sig.Results().Len() == 2 {
+						isW = true // a write function handed in as a parameter
+					}
+				}
+				sl, isSl := call.Call.Args[0].(*ssa.Slice)
+				if !isW || !isSl || sl.X != v.X || sl.Low != ssa.Value(ph) || sl.High != nil {
+					good = false
+				}
+			}
+			for _, e := range ph.Edges {
+				chk(e, 0)
+			}
+			if good {
+				return "Gwrite: b[sent:] with sent the sum of the counts returned by Write(b[sent:]) (0 ≤ count ≤ len(b)−sent by the io.Writer contract)", ""
+			}
 		}
 		return "", "b[n:] without a dominating n < len(b) guard"
 	}
 	// [0:l] of pooled writer buffer
 	if v.Low != nil && v.High != nil {
 		if k, ok := flow.ConstInt(v.Low); ok && k == 0 {
-			if call, ok := v.X.(*ssa.Call); ok && flow.IsCallTo(call, "bytes", "Buffer", "Bytes") {
-				// buffer obtained from a function called with the same length
-				if bc, ok := call.Call.Args[0].(*ssa.Call); ok && len(bc.Call.Args) == 1 && sameVal(bc.Call.Args[0], v.High) {
-					if g := flow.StaticCallee(bc); g != nil && x.allocatesAtLeastParam(g) {
-						return "Gbuf: buf.Bytes()[0:l] of a buffer obtained from " + g.Name() + "(l), which returns a buffer of at least l (or MessageBufferLength ≥ l) bytes", ""
-					}
-				}
+			if why := x.gbuf(v); why != "" {
+				return why, ""
 			}
 		}
 	}
@@ -1739,4 +1799,21 @@ func derivesFromChild(v ssa.Value, d int) bool {
 		return derivesFromChild(y.X, d+1)
 	}
 	return false
+}
+
+// gbuf: v = buf.Bytes()[:l] (or [0:l]) of a buffer obtained from a function called with the same l that returns
+// a buffer of at least l bytes.
+func (x *c03) gbuf(v *ssa.Slice) string {
+	call, ok := v.X.(*ssa.Call)
+	if !ok || !flow.IsCallTo(call, "bytes", "Buffer", "Bytes") {
+		return ""
+	}
+	bc, ok := call.Call.Args[0].(*ssa.Call)
+	if !ok || len(bc.Call.Args) != 1 || !sameVal(bc.Call.Args[0], v.High) {
+		return ""
+	}
+	if g := flow.StaticCallee(bc); g != nil && x.allocatesAtLeastParam(g) {
+		return "Gbuf: buf.Bytes()[0:l] of a buffer obtained from " + g.Name() + "(l), which returns a buffer of at least l (or MessageBufferLength ≥ l) bytes"
+	}
+	return ""
 }
